@@ -53,6 +53,17 @@ func Gen(store string, conc bool) func(t *rapid.T) *Case {
 			np = rapid.IntRange(2, 8).Draw(t, "np")
 			maxEv = 20
 			c.Procs = rapid.SampledFrom([]int{1, 2, 4, 16}).Draw(t, "procs")
+			if rapid.Bool().Draw(t, "noise") {
+				// needs the persistence error handler among the options
+				has := false
+				for _, op := range c.Options {
+					has = has || op == "perr"
+				}
+				if !has {
+					c.Options = append(c.Options, "perr")
+				}
+				c.Noise = rapid.IntRange(5, 60).Draw(t, "nnoise")
+			}
 		}
 		if store != "memory" {
 			maxEv = 8
